@@ -39,7 +39,9 @@ func FQDN(domain string) string {
 // domains are simply converted to local-case using strings.ToLower, but the
 // error is also returned.
 func ForLookup(domain string) (string, error) {
-	uDomain, err := idna.ToUnicode(domain)
+	// The ACE prefix and the encoded part of an A-label are case-insensitive
+	// but idna.ToUnicode decodes only labels with the lower-case "xn--".
+	uDomain, err := idna.ToUnicode(LowerASCII(domain))
 	if err != nil {
 		return strings.ToLower(domain), err
 	}
@@ -50,6 +52,17 @@ func ForLookup(domain string) (string, error) {
 	uDomain = strings.ToLower(uDomain)
 	uDomain = strings.TrimSuffix(uDomain, ".")
 	return uDomain, nil
+}
+
+// LowerASCII converts ASCII letters in s to the lower case and leaves
+// all other characters as they are.
+func LowerASCII(s string) string {
+	return strings.Map(func(r rune) rune {
+		if r >= 'A' && r <= 'Z' {
+			return r + ('a' - 'A')
+		}
+		return r
+	}, s)
 }
 
 // Equal reports whether domain1 and domain2 are equivalent as defined by
